@@ -6,7 +6,8 @@ STANDING_ASSUMPTIONS = [
     'a Rust slice never spans more than isize::MAX bytes (axiom_slice_max)',
     'error values are unspecified: contracts only distinguish Ok from Err',
     'stack depth is not modelled (recursive burn_value family)',
-    'extraction rewrites R1..R16 (DESIGN.md 2.3) preserve semantics; each application is listed under coverage.rewrites',
+    'AsRef::as_ref on the generic part lists of Tags::from_parts is a function of its receiver, and the parts fit in the address space (prelude/asref.rs)',
+    'extraction rewrites R1..R31 (DESIGN.md 2.3 and 8.2) preserve semantics; each application is listed under coverage.rewrites',
 ]
 
 PROPERTIES = {
@@ -49,10 +50,10 @@ PROPERTIES = {
                         'the 40% error envelope for random elements is a statistical statement about floating point: no contract expresses it'],
     },
     'C19': {
-        'units': ['event', 'tagsjson', 'filter_parse', 'event_parse'],
-        'sample_functions': ['Event::from_parts', 'read_tags_array', 'read_tag'],
-        'not_decided': ['Tags::from_parts / OwnedTags::new / Filter::from_parts / OwnedFilter::new / sign_new: view equality not yet under contract (their overflow fixes are in /repo; see DESIGN.md)',
-                        'JSON parsers: structural bounds are proved; "accessors reproduce exactly the parsed parts" is stage 3 of C01/C07'],
+        'units': ['event', 'tags_parts', 'filter_parts', 'tagsjson', 'filter_parse', 'event_parse'],
+        'sample_functions': ['Tags::from_parts', 'Filter::from_parts', 'Event::from_parts', 'OwnedTags::new', 'read_tags_array'],
+        'not_decided': ['OwnedEvent::sign_new: its packing is OwnedEvent::new (proved); the id/signature it computes are C08 (secp256k1 types are outside the verifier\'s reach)',
+                        'JSON parsers: well-formedness, bounds and refusal of oversized sections are proved; "accessors reproduce exactly the parsed parts" is stage 3 of C01/C07'],
     },
     'C04': {
         'units': ['map', 'store', 'storelemmas'],
